@@ -267,7 +267,7 @@ def check_c04(case, stats):
 
 
 CHECKS = {'check_c04': check_c04}
-_B = {'quick': 80, 'thorough': 1200}
+_B = {'quick': 80, 'thorough': 1800}
 
 
 def shards(tier):
